@@ -29,6 +29,9 @@ func (s *spyWriter) Write(b []byte) (int, error) {
 }
 func (s *spyWriter) Flush() { *s.events = append(*s.events, T("ufl")) }
 
+// hookPanic is the value a scripted panicking before function panics with.
+var hookPanic = "verif: before function panics"
+
 func init() {
 	properties["C13"] = &property{gen: genC13, run: runC13}
 }
@@ -42,7 +45,7 @@ func genC13(rng *rand.Rand, n int, tier string, emit func(*Sx)) {
 	}
 	if tier == "thorough" {
 		// every sequence of length <= 5 over a fixed op alphabet, for HEAD and GET
-		alpha := []*Sx{T("wh", I(404)), T("w", X("ab"), I(2)), T("w", X("abc"), I(1)), T("fl"), T("bf", I(1)), T("st"), T("sz"), T("wr")}
+		alpha := []*Sx{T("wh", I(404)), T("w", X("ab"), I(2)), T("w", X("abc"), I(1)), T("fl"), T("bf", I(1)), T("bfp", I(2)), T("st"), T("sz"), T("wr")}
 		var rec func(prefix []*Sx, d int)
 		rec = func(prefix []*Sx, d int) {
 			for _, m := range []string{"GET", "HEAD"} {
@@ -65,7 +68,11 @@ func genC13(rng *rand.Rand, n int, tier string, emit func(*Sx)) {
 			switch r := rng.Intn(100); {
 			case r < 20:
 				hook++
-				ops = append(ops, T("bf", I(hook)))
+				if rng.Intn(5) == 0 {
+					ops = append(ops, T("bfp", I(hook))) // a before function that panics
+				} else {
+					ops = append(ops, T("bf", I(hook)))
+				}
 			case r < 40:
 				b := make([]byte, rng.Intn(6))
 				rng.Read(b)
@@ -103,28 +110,44 @@ func runC13(in *Sx) *Sx {
 	for _, op := range in.Field("ops").Args() {
 		events = nil
 		a := op.Args()
-		switch op.Tag() {
-		case "wh":
-			w.WriteHeader(a[0].Int())
-		case "w":
-			spy.acc = a[1].Int()
-			_, _ = w.Write([]byte(a[0].Bytes()))
-		case "fl":
-			w.Flush()
-		case "bf":
-			id := a[0].Int()
-			w.Before(func(rw flamego.ResponseWriter) {
-				events = append(events, T("hk", I(id), I(rw.Status())))
-			})
-		case "st":
-			events = append(events, T("ast", I(w.Status())))
-		case "sz":
-			events = append(events, T("asz", I(w.Size())))
-		case "wr":
-			events = append(events, T("awr", B(w.Written())))
-		default:
-			panic(badInput("op " + op.String()))
-		}
+		func() {
+			defer func() {
+				if r := recover(); r != nil {
+					if r != hookPanic {
+						panic(r)
+					}
+					events = append(events, T("pan"))
+				}
+			}()
+			switch op.Tag() {
+			case "wh":
+				w.WriteHeader(a[0].Int())
+			case "w":
+				spy.acc = a[1].Int()
+				_, _ = w.Write([]byte(a[0].Bytes()))
+			case "fl":
+				w.Flush()
+			case "bf":
+				id := a[0].Int()
+				w.Before(func(rw flamego.ResponseWriter) {
+					events = append(events, T("hk", I(id), I(rw.Status())))
+				})
+			case "bfp":
+				id := a[0].Int()
+				w.Before(func(rw flamego.ResponseWriter) {
+					events = append(events, T("hk", I(id), I(rw.Status())))
+					panic(hookPanic)
+				})
+			case "st":
+				events = append(events, T("ast", I(w.Status())))
+			case "sz":
+				events = append(events, T("asz", I(w.Size())))
+			case "wr":
+				events = append(events, T("awr", B(w.Written())))
+			default:
+				panic(badInput("op " + op.String()))
+			}
+		}()
 		outs = append(outs, L(events...))
 	}
 	return T("obs", T("outs", outs...))
